@@ -1157,6 +1157,12 @@ func genInterfaceWrapper(n *node, typ reflect.Type) func(*frame) reflect.Value {
 			n2 = vi.node
 		}
 		cv := valueInterfaceValue(v) // the value held by the interface, of dynamic type n2.typ
+		if n2 == nil && cv.IsValid() && cv.CanAddr() {
+			// The interface holds a copy of the value, not the variable it is read from.
+			c := reflect.New(cv.Type()).Elem()
+			c.Set(cv)
+			cv = c
+		}
 		v = getConcreteValue(v)
 		w := reflect.New(wrap).Elem()
 		w.Field(0).Set(v)
@@ -1181,7 +1187,7 @@ func genInterfaceWrapper(n *node, typ reflect.Type) func(*frame) reflect.Value {
 				panic(n.cfgErrorf("method not found: %s", names[i]))
 			}
 			nod := *m
-			nod.recv = &receiver{n, v, indexes[i]}
+			nod.recv = &receiver{nil, cv, indexes[i]}
 			w.Field(i + 1).Set(genFunctionWrapper(&nod)(f))
 		}
 		return w
